@@ -319,6 +319,8 @@ pub proof fn lemma_wf_op_update(pre: ProtocolState, post: ProtocolState, id: u64
         is_qos1plus_publish(*pre.operations@[id].packet) ==> is_qos1plus_publish(*post.operations@[id].packet),
         *pre.operations@[id].packet is Subscribe ==> *post.operations@[id].packet is Subscribe,
         *pre.operations@[id].packet is Unsubscribe ==> *post.operations@[id].packet is Unsubscribe,
+        takes_packet_id(*post.operations@[id].packet) ==> takes_packet_id(*pre.operations@[id].packet),
+        post.pending_write_completion_operations@ == pre.pending_write_completion_operations@,
         post.allocated_packet_ids@ == pre.allocated_packet_ids@,
         post.pending_publish_operations@ == pre.pending_publish_operations@,
         post.pending_non_publish_operations@ == pre.pending_non_publish_operations@,
@@ -476,6 +478,7 @@ impl ProtocolState {
 //@fn gneiss-mqtt/src/protocol.rs ProtocolState::handle_puback props=C01,C11,C06
     requires old(self).wf(), *packet is Puback,
     ensures final(self).wf(),
+        final(self).next_operation_id == old(self).next_operation_id,
         completion_frame(*old(self), *final(self)),
         ({
             let pid = packet->Puback_0.packet_id;
@@ -491,6 +494,7 @@ impl ProtocolState {
 //@fn gneiss-mqtt/src/protocol.rs ProtocolState::handle_pubcomp props=C01,C04,C11,C06
     requires old(self).wf(), *packet is Pubcomp,
     ensures final(self).wf(),
+        final(self).next_operation_id == old(self).next_operation_id,
         completion_frame(*old(self), *final(self)),
         ({
             let pid = packet->Pubcomp_0.packet_id;
@@ -516,6 +520,7 @@ impl ProtocolState {
 //@fn gneiss-mqtt/src/protocol.rs ProtocolState::handle_suback props=C01,C11,C06
     requires old(self).wf(), *packet is Suback,
     ensures final(self).wf(),
+        final(self).next_operation_id == old(self).next_operation_id,
         completion_frame(*old(self), *final(self)),
         ({
             let suback = packet->Suback_0;
@@ -532,6 +537,7 @@ impl ProtocolState {
 //@fn gneiss-mqtt/src/protocol.rs ProtocolState::handle_unsuback props=C01,C11,C06
     requires old(self).wf(), *packet is Unsuback,
     ensures final(self).wf(),
+        final(self).next_operation_id == old(self).next_operation_id,
         completion_frame(*old(self), *final(self)),
         ({
             let unsuback = packet->Unsuback_0;
@@ -548,6 +554,7 @@ impl ProtocolState {
 //@fn gneiss-mqtt/src/protocol.rs ProtocolState::handle_pubrec props=C01,C04,C11,C06
     requires old(self).wf(), *packet is Pubrec,
     ensures final(self).wf(),
+        final(self).next_operation_id == old(self).next_operation_id,
         ({
             let pubrec = packet->Pubrec_0;
             let pid = pubrec.packet_id;
@@ -593,6 +600,7 @@ impl ProtocolState {
 //@fn gneiss-mqtt/src/protocol.rs ProtocolState::handle_pubrel props=C05,C11
     requires old(self).wf(), *packet is Pubrel, opid_budget(*old(self), 1),
     ensures final(self).wf(),
+        old(self).next_operation_id <= final(self).next_operation_id <= old(self).next_operation_id + 1,
         ({
             let pid = packet->Pubrel_0.packet_id;
             let pre = *old(self);
@@ -617,6 +625,7 @@ impl ProtocolState {
 //@fn gneiss-mqtt/src/protocol.rs ProtocolState::handle_publish props=C05,C11
     requires old(self).wf(), *packet is Publish, opid_budget(*old(self), 1),
     ensures final(self).wf(),
+        old(self).next_operation_id <= final(self).next_operation_id <= old(self).next_operation_id + 1,
         final(context).current_time == old(context).current_time,
         ({
             let publish = packet->Publish_0;
@@ -652,6 +661,7 @@ impl ProtocolState {
 
 //@fn gneiss-mqtt/src/protocol.rs ProtocolState::handle_pingresp props=C14,C11
     ensures
+        final(self).next_operation_id == old(self).next_operation_id,
         ({
             let ok = (old(self).state == ProtocolStateType::Connected || old(self).state == ProtocolStateType::PendingDisconnect)
                 && old(self).ping_timeout_timepoint is Some;
@@ -663,6 +673,7 @@ impl ProtocolState {
 //@fn gneiss-mqtt/src/protocol.rs ProtocolState::handle_disconnect props=C11
     requires *packet is Disconnect,
     ensures *final(self) == *old(self), r is Err,
+        final(self).next_operation_id == old(self).next_operation_id,
         final(context).current_time == old(context).current_time,
         (accepts_acks(old(self).state) && old(self).protocol_version != ProtocolVersion::Mqtt311)
             ==> final(context).packet_events@ == old(context).packet_events@.push(PacketEvent::Disconnect(packet->Disconnect_0)),
@@ -672,6 +683,7 @@ impl ProtocolState {
 
 //@fn gneiss-mqtt/src/protocol.rs ProtocolState::handle_auth props=C11
     ensures *final(self) == *old(self), r is Err, final(_arg2).packet_events@ == old(_arg2).packet_events@, final(_arg2).current_time == old(_arg2).current_time,
+        final(self).next_operation_id == old(self).next_operation_id,
 //@end
 }
 
@@ -2277,26 +2289,93 @@ pub proof fn lemma_restart_wf(sd: ProtocolState, fin: ProtocolState, done: Set<u
         assert(sd.operations@.contains_key(k));
         if fin.operations@[k].packet_id is Some { assert(!done.contains(k)); assert(sd.alloc_dir2_for(k)); }
     }
+    assert forall|i: int| 0 <= i < fin.pending_write_completion_operations@.len() implies ({
+            let k = #[trigger] fin.pending_write_completion_operations@[i];
+            k < fin.next_operation_id && (fin.operations@.contains_key(k) ==> !takes_packet_id(*fin.operations@[k].packet))
+        }) by {
+        let k = sd.pending_write_completion_operations@[i];
+        if fin.operations@.contains_key(k) { assert(sd.operations@.contains_key(k)); assert(takes_packet_id(*restarted_op(sd.operations@[k]).packet) == takes_packet_id(*sd.operations@[k].packet)); }
+    }
 }
 
 impl ProtocolState {
 // ---- assumed contracts for the closure/iterator functions outside Verus; each is examined by E-B (bounded)
-//@fn gneiss-mqtt/src/protocol.rs ProtocolState::complete_operation_sequence_as_empty_success stub
-    requires old(self).wf(),
+//@fn gneiss-mqtt/src/protocol.rs ProtocolState::complete_operation_sequence_as_empty_success props=C01,C11 desugar
+    requires old(self).wf(), iterator.obeys_prophetic_iter_laws(), iterator.decrease() is Some,
+        // W14 for the listed ids: what completes "empty" needs no response packet (otherwise `completion_result.unwrap()` panics)
+        forall|i: int| 0 <= i < iterator.remaining().len() ==> (old(self).operations@.contains_key(#[trigger] iterator.remaining()[i])
+            ==> !takes_packet_id(*old(self).operations@[iterator.remaining()[i]].packet)),
     ensures final(self).wf(),
-        final(self).current_operation == old(self).current_operation,
-        old(self).cur_ok() ==> final(self).cur_ok() || true,
-        final(self).pending_write_completion == old(self).pending_write_completion,
-        final(self).pending_write_completion_operations@ == old(self).pending_write_completion_operations@,
-        final(self).state == old(self).state || (old(self).state == ProtocolStateType::PendingDisconnect && final(self).state == ProtocolStateType::Halted),
+        completion_frame(*old(self), *final(self)),
+        shrunk(*old(self), *final(self)),
+        // exactly the listed operations are completed: each of them is gone, nothing else is
+        forall|k: u64| #[trigger] final(self).operations@.contains_key(k) <==> old(self).operations@.contains_key(k) && !iterator.remaining().contains(k),
+        state_after_failures(old(self).state, final(self).state),
+        (old(self).cur_ok() && (old(self).current_operation matches Some(c) ==> !iterator.remaining().contains(c))) ==> final(self).cur_ok(),
+        !old(self).ss_active() ==> final(self).slow_start_ack_count == old(self).slow_start_ack_count,
+//@@loop 0 manual=it
+            invariant it.obeys_prophetic_iter_laws(), it.decrease() is Some,
+                all == consumed + it.remaining(),
+                self.wf(), old(self).wf(),
+                forall|i: int| 0 <= i < all.len() ==> (old(self).operations@.contains_key(#[trigger] all[i]) ==> !takes_packet_id(*old(self).operations@[all[i]].packet)),
+                completion_frame(*old(self), *self),
+                shrunk(*old(self), *self),
+                forall|k: u64| #[trigger] self.operations@.contains_key(k) <==> old(self).operations@.contains_key(k) && !consumed.contains(k),
+                state_after_failures(old(self).state, self.state),
+                !old(self).ss_active() ==> self.slow_start_ack_count == old(self).slow_start_ack_count,
+                self.config == old(self).config,
+                (old(self).cur_ok() && (old(self).current_operation matches Some(c) ==> !all.contains(c))) ==> self.cur_ok(),
+            ensures all == consumed,
+            decreases it.decrease()->Some_0,
+//@@at before "let mut it = (iterator).into_iter();"
+        let ghost all = iterator.remaining();
+        let ghost mut consumed: Seq<u64> = Seq::empty();
+        proof { lemma_shrunk_refl(*old(self)); }
+//@@at before "res = {"
+            let ghost mid = *self;
+            let ghost pre_cons = consumed;
+            proof {
+                consumed = consumed.push(item); lemma_push_contains(pre_cons, item);
+                assert(all[pre_cons.len() as int] == item);
+            }
+//@@at after "};"
+            proof {
+                lemma_shrunk_step(*old(self), mid, *self, item);
+                assert(all.contains(item)) by { assert(all[pre_cons.len() as int] == item); }
+            }
 //@end
 
 
-//@fn gneiss-mqtt/src/protocol.rs ProtocolState::handle_network_event_incoming_data stub
-    requires old(self).wf(),
+}
+//@fn gneiss-mqtt/src/validate.rs validate_packet_inbound_internal stub
+//@end
+impl InboundAliasResolver {
+//@fn gneiss-mqtt/src/alias.rs InboundAliasResolver::resolve_topic_alias stub
+    ensures final(self).maximum_alias_value == old(self).maximum_alias_value,
+//@end
+}
+impl ProtocolState {
+//@fn gneiss-mqtt/src/protocol.rs ProtocolState::handle_network_event_incoming_data props=C11,C05 desugar
+// by-value iteration of the local list: `for x in Q` is `for x in Q.into_iter()` by definition; written out so that rule R14 applies
+//@@rewrite "for mut packet in decoded_packets {" => "for mut packet in decoded_packets.into_iter() {"
+    requires old(self).wf(), clock_ok(old(context).current_time),
+        // A-OPID: at most one operation (an acknowledgement) is created per decoded packet, at most one packet ends per byte
+        opid_budget(*old(self), data@.len() as int),
+        old(self).state == ProtocolStateType::PendingConnack ==> connack_ready(*old(self)),
     ensures final(self).wf(),
         (old(self).state == ProtocolStateType::Disconnected || old(self).state == ProtocolStateType::Halted) ==> r is Err && *final(self) == *old(self),
-        r is Ok ==> (old(self).cur_ok() ==> final(self).cur_ok()),
+        final(context).current_time == old(context).current_time,
+        // C07/C11: nothing the server sends is looked at before the CONNECT has left the queue
+        (old(self).state == ProtocolStateType::PendingConnack && connect_unsent(*old(self))) ==> r is Err && final(self).state == ProtocolStateType::Halted,
+//@@loop 0 manual=it
+            invariant it.obeys_prophetic_iter_laws(), it.decrease() is Some,
+                self.wf(), clock_ok(context.current_time), context.current_time == old(context).current_time,
+                self.next_operation_id as int + it.remaining().len() <= old(self).next_operation_id + data@.len(),
+                opid_budget(*old(self), data@.len() as int),
+                self.state == ProtocolStateType::PendingConnack ==> connack_ready(*self),
+                old(self).state != ProtocolStateType::Disconnected && old(self).state != ProtocolStateType::Halted,
+                !(old(self).state == ProtocolStateType::PendingConnack && connect_unsent(*old(self))),
+            decreases it.decrease()->Some_0,
 //@end
 
 //@fn gneiss-mqtt/src/protocol.rs ProtocolState::initialize_slow_start props=C09,C11
@@ -2523,7 +2602,10 @@ impl ProtocolState {
 //@end
 
 // (body uses `completions.iter().copied()`: Iterator::copied on vec_deque::Iter is outside Verus) -> assumed, E-B
-//@fn gneiss-mqtt/src/protocol.rs ProtocolState::handle_network_event_write_completion stub
+//@fn gneiss-mqtt/src/protocol.rs ProtocolState::handle_network_event_write_completion props=C11,C01 desugar
+// the iterator over copies of the swapped-out list is replaced by the by-value iterator over the same list (same ids, same order; the
+// list is a local that is not used afterwards) - Verus has no specification for `Iterator::copied`; the second into_iter is rule R14
+//@@rewrite "completions.iter().copied()" => "(completions.into_iter()).into_iter()"
     requires old(self).wf(),
     ensures final(self).wf(),
         // a write completion nobody is waiting for, or in a state that writes nothing, is an error
@@ -2531,8 +2613,17 @@ impl ProtocolState {
         (old(self).state != ProtocolStateType::Halted && old(self).state != ProtocolStateType::Disconnected && !old(self).pending_write_completion)
             ==> r is Err && *final(self) == (ProtocolState { state: ProtocolStateType::Halted, ..*old(self) }),
         (old(self).state != ProtocolStateType::Halted && old(self).state != ProtocolStateType::Disconnected && old(self).pending_write_completion)
-            ==> !final(self).pending_write_completion && final(self).pending_write_completion_operations@.len() == 0
-                && final(self).current_operation == old(self).current_operation,
+            ==> {
+                &&& !final(self).pending_write_completion && final(self).pending_write_completion_operations@.len() == 0
+                &&& final(self).current_operation == old(self).current_operation
+                // C01: exactly the operations whose packets were in the flushed buffer complete (QoS 0 publishes, DISCONNECT, acks, pings); nothing else does
+                &&& forall|k: u64| #[trigger] final(self).operations@.contains_key(k) <==> old(self).operations@.contains_key(k) && !old(self).pending_write_completion_operations@.contains(k)
+                &&& shrunk(*old(self), *final(self))
+                &&& state_after_failures(old(self).state, final(self).state)
+                &&& final(self).user_operation_queue@ == old(self).user_operation_queue@ && final(self).resubmit_operation_queue@ == old(self).resubmit_operation_queue@
+                &&& final(self).high_priority_operation_queue@ == old(self).high_priority_operation_queue@
+                &&& ((old(self).cur_ok() && (old(self).current_operation matches Some(c) ==> !old(self).pending_write_completion_operations@.contains(c))) ==> final(self).cur_ok())
+            },
 //@end
 
 }
@@ -2549,6 +2640,7 @@ impl ProtocolState {
     requires old(self).wf(), *packet is Connack, clock_ok(old(context).current_time),
         old(self).state == ProtocolStateType::PendingConnack ==> connack_ready(*old(self)),
     ensures final(self).wf(),
+        final(self).next_operation_id == old(self).next_operation_id,
         final(context).current_time == old(context).current_time,
         ({
             let connack = packet->Connack_0;
@@ -2590,10 +2682,17 @@ impl ProtocolState {
         *packet is Disconnect ==> r is Err,
         // nothing but a CONNACK is acceptable before the connection is established
         (!accepts_acks(old(self).state) && !(*packet is Connack)) ==> r is Err,
+        // at most one operation (the acknowledgement of an inbound publish) is created; a handled packet never leaves the engine waiting for a CONNACK
+        old(self).next_operation_id <= final(self).next_operation_id <= old(self).next_operation_id + 1,
+        r is Ok ==> final(self).state != ProtocolStateType::PendingConnack,
 //@end
 
 //@fn gneiss-mqtt/src/protocol.rs ProtocolState::handle_network_event props=C11,C07
     requires old(self).wf(), opid_budget(*old(self), 1), clock_ok(old(context).current_time), interruptions_in_range(*old(self)),
+        // A-OPID for a batch of inbound packets (at most one acknowledgement operation per packet, at most one packet per byte)
+        old(context).event matches NetworkEvent::IncomingData(d) ==> opid_budget(*old(self), d@.len() as int),
+        // A-HANDSHAKE (DESIGN.md 6): what must hold of the engine when data arrives during the handshake
+        (old(context).event is IncomingData && old(self).state == ProtocolStateType::PendingConnack) ==> connack_ready(*old(self)),
     ensures final(self).wf(),
         // every error from an entry point switches to Halted ...
         r is Err ==> final(self).state == ProtocolStateType::Halted,
